@@ -153,6 +153,8 @@ def run_case(case: dict, driver):
                 exists_now = p.exists()
                 lines.append(("keeper append " if exists_now else "keeper append_missing ") + rel)
                 impl.append(aout)
+                if rel in tracked:
+                    tracked.remove(rel)          # saved again under the same name: its newest incarnation counts
                 tracked.append(rel)
                 allowed.add(rel)
                 trace.append("append" if exists_now else "append-missing")
@@ -303,6 +305,7 @@ def gen_case(rng, max_ops: int = 14) -> dict:
     existing |= {e[0] for e in extra if e[0].count("/") == 1}
     fresh = 0
     ops = []
+    gone: list[str] = []        # names the keeper has cleaned up: a later save may use one of them again
     for _ in range(rng.randint(1, max_ops)):
         t = rng.random()
         if t < 0.42:
@@ -310,6 +313,17 @@ def gen_case(rng, max_ops: int = 14) -> dict:
             where = "states" if rng.random() < 0.8 else "other"
             rel = f"{where}/n{fresh}-{rng.randrange(1000)}" + (".state" if rng.random() < 0.8 else "")
             create = rng.random() < 0.93
+            back = [p for p in gone if p not in existing] + [p for p in tracked if p not in existing]
+            if back and rng.random() < 0.3:
+                # a state name format that cycles (time of day, a ring of slots, one rolling checkpoint): the same path
+                # comes back - after the keeper cleaned it up, or after somebody moved the directory away while the
+                # keeper still tracks it (StateStore refuses a directory that exists, so only absent ones return)
+                rel = rng.choice(back)
+                if rel in gone:
+                    gone.remove(rel)
+                if rel in tracked:
+                    tracked.remove(rel)
+                create = True
             ops.append(["append", rel, create])
             tracked.append(rel)
             if create:
@@ -319,6 +333,8 @@ def gen_case(rng, max_ops: int = 14) -> dict:
             keep = tracked[-max_keep:] if max_keep > 0 else []
             for p in tracked[:len(tracked) - len(keep)]:
                 existing.discard(p)
+                if p not in keep and p not in gone:
+                    gone.append(p)
             tracked = keep
         elif t < 0.90 and existing:
             # somebody else removes something: often a tracked state, sometimes a foreign entry
@@ -543,13 +559,14 @@ if __name__ == "__main__":
     try:
         code = run_check(
             "C18", lean_modules=["Pamiq.Props.C18"],
-            required_theorems=["Pamiq.Keeper.keeps_newest", "Pamiq.Keeper.removes_older",
+            required_theorems=["Pamiq.Keeper.keeps_newest", "Pamiq.Keeper.tracked_nodup", "Pamiq.Keeper.as_found_deletes_newest",
+                               "Pamiq.Keeper.removes_older",
                                "Pamiq.Keeper.touches_only_tracked", "Pamiq.Keeper.ctor_rejects_negative"],
             suites=[suite_exhaustive, suite_random, suite_malformed, *sys_suites], search=search, replay=replay,
             assumptions=[
                 "modification times of the start-up states are distinct (the property's own premise)",
-                "appended paths are new: not currently tracked (StateStore.save_state creates the "
-                "directory with mkdir and fails if it exists)",
+                "an appended path does not exist as a directory just before the save that creates it (StateStore.save_state "
+                "creates the directory with mkdir and fails if it exists); it may be tracked already (a name that recurs)",
                 "a state directory is one atomic path; tracked paths are not nested in each other",
                 "paths matching the pattern are directories (a matching regular file makes "
                 "shutil.rmtree raise NotADirectoryError: modelled, exercised in the malformed suite, "
